@@ -10,6 +10,7 @@ import (
 	"os/exec"
 	"strconv"
 	"strings"
+	"sync"
 	"time"
 )
 
@@ -381,4 +382,232 @@ func tokenize(s string) []string {
 	}
 	flush()
 	return toks
+}
+
+// RawCheck decides a self-contained SMT-LIB script (declarations + assertions) in a scratch scope.
+func (s *Solver) RawCheck(script string) string {
+	t0 := time.Now()
+	s.send("(push 1)")
+	s.send(script)
+	s.send("(check-sat)")
+	res := s.readAnswer()
+	s.send("(pop 1)")
+	s.account(res, t0)
+	return res
+}
+
+func hasFP(t *Term, seen map[*Term]bool) bool {
+	if seen[t] {
+		return false
+	}
+	seen[t] = true
+	if t.S.K == SFP {
+		return true
+	}
+	for _, a := range t.Args {
+		if hasFP(a, seen) {
+			return true
+		}
+	}
+	return false
+}
+
+func termVars(t *Term, out map[string]bool, seen map[*Term]bool) {
+	if seen[t] {
+		return
+	}
+	seen[t] = true
+	if t.Op == "var" {
+		out[t.Name] = true
+	}
+	for _, a := range t.Args {
+		termVars(a, out, seen)
+	}
+}
+
+// coneOfInfluence keeps the path conditions that (transitively) share variables with the goals.
+func coneOfInfluence(pc, goals []*Term) []*Term {
+	vars := map[string]bool{}
+	for _, g := range goals {
+		termVars(g, vars, map[*Term]bool{})
+	}
+	pcVars := make([]map[string]bool, len(pc))
+	for i, c := range pc {
+		pcVars[i] = map[string]bool{}
+		termVars(c, pcVars[i], map[*Term]bool{})
+	}
+	used := make([]bool, len(pc))
+	for changed := true; changed; {
+		changed = false
+		for i := range pc {
+			if used[i] {
+				continue
+			}
+			for v := range pcVars[i] {
+				if vars[v] {
+					used[i] = true
+					changed = true
+					for w := range pcVars[i] {
+						vars[w] = true
+					}
+					break
+				}
+			}
+		}
+	}
+	var out []*Term
+	for i, c := range pc {
+		if used[i] {
+			out = append(out, c)
+		}
+	}
+	return out
+}
+
+var oneShotMu sync.Mutex
+var oneShotCache = map[string]string{}
+var oneShotN int
+
+// OneShot decides pc ∧ extra in a fresh, non-incremental solver process (z3's incremental core is
+// far slower on floating-point queries than its one-shot tactic pipeline). Only the cone of
+// influence of the goal is sent; unsat verdicts are cached by query text.
+func OneShot(pc, extra []*Term, vars []*Term, timeoutMs int, parent *Solver) (string, map[string]uint64) {
+	pc = coneOfInfluence(pc, extra)
+	var key strings.Builder
+	for _, c := range pc {
+		key.WriteString(c.String())
+		key.WriteString(";")
+	}
+	key.WriteString("|")
+	for _, c := range extra {
+		key.WriteString(c.String())
+		key.WriteString(";")
+	}
+	oneShotMu.Lock()
+	if res, ok := oneShotCache[key.String()]; ok && res == "unsat" {
+		oneShotMu.Unlock()
+		return res, nil
+	}
+	oneShotN++
+	n := oneShotN
+	oneShotMu.Unlock()
+	logPath := ""
+	if d := os.Getenv("VERIF_SMTLOG"); d != "" {
+		logPath = fmt.Sprintf("%s/oneshot_%d.smt2", d, n)
+	}
+	script, vrefs := oneShotScript(pc, extra, vars)
+	if logPath != "" {
+		os.WriteFile(logPath, []byte(script), 0o644)
+	}
+	t0 := time.Now()
+	// z3 first (short cap), then cvc5 (much better at satisfiable FP queries), then the newer z3
+	res, model := runScript("z3", []string{fmt.Sprintf("-T:%d", 25)}, script, vrefs)
+	if res == "unknown" {
+		res, model = runScript("cvc5", []string{"--produce-models", fmt.Sprintf("--tlimit=%d", timeoutMs)}, "(set-logic ALL)\n"+script, vrefs)
+	}
+	if res == "unknown" {
+		res, model = runScript("z3-new", []string{fmt.Sprintf("-T:%d", timeoutMs/1000)}, script, vrefs)
+	}
+	parent.account(res, t0)
+	oneShotMu.Lock()
+	oneShotCache[key.String()] = res
+	oneShotMu.Unlock()
+	return res, model
+}
+
+type nopCloser struct{ *strings.Builder }
+
+func (nopCloser) Close() error { return nil }
+
+// oneShotScript renders the query as a self-contained SMT-LIB script.
+func oneShotScript(pc, extra []*Term, vars []*Term) (string, []string) {
+	var sb strings.Builder
+	s := &Solver{in: nopCloser{&sb}, defined: map[*Term]string{}, declared: map[string]Sort{}}
+	s.send("(declare-fun strlen (Int) (_ BitVec 64))")
+	for _, c := range pc {
+		s.Assert(c)
+	}
+	for _, c := range extra {
+		s.Assert(c)
+	}
+	var vrefs []string
+	for _, v := range vars {
+		if !v.Const {
+			vrefs = append(vrefs, s.ref(v))
+		}
+	}
+	s.send("(check-sat)")
+	if len(vrefs) > 0 {
+		s.send("(get-value (" + strings.Join(vrefs, " ") + "))")
+	}
+	return sb.String(), vrefs
+}
+
+func runScript(bin string, args []string, script string, vrefs []string) (string, map[string]uint64) {
+	f, err := os.CreateTemp("", "gosym_q*.smt2")
+	if err != nil {
+		return "unknown", nil
+	}
+	defer os.Remove(f.Name())
+	f.WriteString(script)
+	f.Close()
+	out, _ := exec.Command(bin, append(args, f.Name())...).CombinedOutput()
+	text := string(out)
+	lines := strings.Split(strings.TrimSpace(text), "\n")
+	res := "unknown"
+	idx := -1
+	for i, l := range lines {
+		l = strings.TrimSpace(l)
+		if l == "sat" || l == "unsat" {
+			res = l
+			idx = i
+			break
+		}
+		if l == "unknown" || l == "timeout" {
+			break
+		}
+	}
+	if res != "sat" {
+		return res, nil
+	}
+	model := map[string]uint64{}
+	parseModel(strings.Join(lines[idx+1:], "\n"), model)
+	return res, model
+}
+
+func oneShotWith(bin string, args []string, pc, extra []*Term, vars []*Term, timeoutMs int, parent *Solver, logPath string) (string, map[string]uint64) {
+	s, err := NewSolver(bin, args, logPath, parent.seed, timeoutMs)
+	if err != nil {
+		return "unknown", nil
+	}
+	defer s.Close()
+	t0 := time.Now()
+	for _, c := range pc {
+		s.Assert(c)
+	}
+	for _, c := range extra {
+		s.Assert(c)
+	}
+	var vrefs []string
+	for _, v := range vars {
+		if !v.Const {
+			vrefs = append(vrefs, s.ref(v))
+		}
+	}
+	s.send("(check-sat)")
+	res := s.readAnswer()
+	var model map[string]uint64
+	if res == "sat" {
+		model = map[string]uint64{}
+		for i := 0; i < len(vrefs); i += 50 {
+			j := i + 50
+			if j > len(vrefs) {
+				j = len(vrefs)
+			}
+			s.send("(get-value (" + strings.Join(vrefs[i:j], " ") + "))")
+			parseModel(s.readSexp(), model)
+		}
+	}
+	parent.account(res, t0)
+	return res, model
 }
